@@ -421,9 +421,9 @@ func init() {
 			in.observed = append(in.observed, l+"="+in.render(v))
 			return nil
 		},
-		"zzverif.And":     func(in *Interp, fn *ssa.Function, a []Value) Value { return in.tb.And(a[0].(*Term), a[1].(*Term)) },
-		"zzverif.Or":      func(in *Interp, fn *ssa.Function, a []Value) Value { return in.tb.Or(a[0].(*Term), a[1].(*Term)) },
-		"zzverif.Not":     func(in *Interp, fn *ssa.Function, a []Value) Value { return in.tb.Not(a[0].(*Term)) },
+		"zzverif.And": func(in *Interp, fn *ssa.Function, a []Value) Value { return in.tb.And(a[0].(*Term), a[1].(*Term)) },
+		"zzverif.Or":  func(in *Interp, fn *ssa.Function, a []Value) Value { return in.tb.Or(a[0].(*Term), a[1].(*Term)) },
+		"zzverif.Not": func(in *Interp, fn *ssa.Function, a []Value) Value { return in.tb.Not(a[0].(*Term)) },
 		"zzverif.Implies": func(in *Interp, fn *ssa.Function, a []Value) Value {
 			return in.tb.Implies(a[0].(*Term), a[1].(*Term))
 		},
@@ -506,16 +506,16 @@ func init() {
 		},
 
 		// ---------------- formatting: opaque text
-		"fmt.Sprintf":  mFmtString,
-		"fmt.Sprint":   mFmtString,
-		"fmt.Sprintln": mFmtString,
-		"fmt.Errorf":   mErrorf,
-		"fmt.Fprintf":  mFprint,
-		"fmt.Fprint":   mFprint,
-		"fmt.Fprintln": mFprint,
-		"fmt.Printf":   mNop,
-		"fmt.Println":  mNop,
-		"fmt.Print":    mNop,
+		"fmt.Sprintf":                       mFmtString,
+		"fmt.Sprint":                        mFmtString,
+		"fmt.Sprintln":                      mFmtString,
+		"fmt.Errorf":                        mErrorf,
+		"fmt.Fprintf":                       mFprint,
+		"fmt.Fprint":                        mFprint,
+		"fmt.Fprintln":                      mFprint,
+		"fmt.Printf":                        mNop,
+		"fmt.Println":                       mNop,
+		"fmt.Print":                         mNop,
 		"github.com/go-faster/errors.Trace": func(in *Interp, fn *ssa.Function, a []Value) Value { return in.tb.False },
 		"github.com/go-faster/errors.FormatError": mNop,
 
@@ -565,7 +565,7 @@ func init() {
 			}
 			return in.callValue(nf, nil, nil)
 		},
-		"(*sync.Pool).Put": mNop,
+		"(*sync.Pool).Put":       mNop,
 		"(*sync.WaitGroup).Add":  mNop,
 		"(*sync.WaitGroup).Done": mNop,
 		"(*sync.WaitGroup).Wait": mNop,
@@ -587,17 +587,41 @@ func init() {
 		"sync/atomic.SwapInt32": mAtomicSwap, "sync/atomic.SwapInt64": mAtomicSwap,
 		"sync/atomic.SwapUint32": mAtomicSwap, "sync/atomic.SwapUint64": mAtomicSwap, "sync/atomic.SwapPointer": mAtomicSwap,
 
+		// ---------------- unique (netip's interned zone handles)
+		"unique.Make": func(in *Interp, fn *ssa.Function, a []Value) Value {
+			key := fn.Signature.Params().At(0).Type().String() + "|" + in.render(a[0])
+			if strings.Contains(key, "<sym") {
+				panic(unsupported("unique.Make of a symbolic value"))
+			}
+			h, ok := in.uniq[key]
+			if !ok {
+				save := in.epoch
+				in.epoch = 0
+				c := in.newCell(fn.Signature.Params().At(0).Type())
+				in.epoch = save
+				c.v, c.sub = nil, c.sub
+				in.storeRaw(c, a[0])
+				h = &StructV{f: []Value{PtrV{c: c}}}
+				in.uniq[key] = h
+			}
+			return h
+		},
+		"(unique.Handle).Value": func(in *Interp, fn *ssa.Function, a []Value) Value {
+			h := a[0].(*StructV)
+			return in.load(h.f[0].(PtrV).c)
+		},
+
 		// ---------------- runtime / misc
-		"runtime.Callers":      func(in *Interp, fn *ssa.Function, a []Value) Value { return in.i64(0) },
-		"runtime.KeepAlive":    mNop,
-		"runtime.SetFinalizer": mNop,
-		"runtime.GC":           mNop,
-		"runtime.Gosched":      mNop,
-		"internal/race.Enabled": mNop,
-		"internal/godebug.(*Setting).Value": func(in *Interp, fn *ssa.Function, a []Value) Value { return StrV{} },
-		"internal/godebug.(*Setting).IncNonDefault": mNop,
-		"time.Now": func(in *Interp, fn *ssa.Function, a []Value) Value { return in.zeroResults(fn) },
-		"time.Since": func(in *Interp, fn *ssa.Function, a []Value) Value { return in.i64(0) },
+		"runtime.Callers":                            func(in *Interp, fn *ssa.Function, a []Value) Value { return in.i64(0) },
+		"runtime.KeepAlive":                          mNop,
+		"runtime.SetFinalizer":                       mNop,
+		"runtime.GC":                                 mNop,
+		"runtime.Gosched":                            mNop,
+		"internal/race.Enabled":                      mNop,
+		"internal/godebug.(*Setting).Value":          func(in *Interp, fn *ssa.Function, a []Value) Value { return StrV{} },
+		"internal/godebug.(*Setting).IncNonDefault":  mNop,
+		"time.Now":                                   func(in *Interp, fn *ssa.Function, a []Value) Value { return in.zeroResults(fn) },
+		"time.Since":                                 func(in *Interp, fn *ssa.Function, a []Value) Value { return in.i64(0) },
 		"(*github.com/go-faster/yaml.Node).ShortTag": func(in *Interp, fn *ssa.Function, a []Value) Value { return in.strConst("<tag>") },
 	}
 	for k, v := range modelTab {
